@@ -26,9 +26,9 @@ struct Osc { int shape; float detune; bool sync; static const rtosc::Ports ports
 struct Fx { int kind; float mix; int taps[3]; static const rtosc::Ports ports; Fx() : kind(1), mix(0.25f) { taps[0] = 1; taps[1] = 2; taps[2] = 3; } };
 struct Flat {
     int i_pos, i_neg, i_wide; float f1, f_neg; bool t_off, t_on; int opt; char name[24]; char tag[6];
-    int arr[4]; float farr[3]; bool tarr[3]; char pc;
+    int arr[4]; float farr[3]; bool tarr[3]; char pc; int slot_level[3];
     Flat() : i_pos(10), i_neg(-5), i_wide(0), f1(0.5f), f_neg(-1.25f), t_off(false), t_on(true), opt(1), pc('@') {
-        strcpy(name, "init"); strcpy(tag, ""); int a[4] = {1, 2, 3, 4}; memcpy(arr, a, sizeof a); farr[0] = farr[1] = farr[2] = 0; tarr[0] = tarr[1] = tarr[2] = false; }
+        strcpy(name, "init"); strcpy(tag, ""); int a[4] = {1, 2, 3, 4}; memcpy(arr, a, sizeof a); farr[0] = farr[1] = farr[2] = 0; tarr[0] = tarr[1] = tarr[2] = false; slot_level[0] = slot_level[1] = slot_level[2] = 0; }
     static const rtosc::Ports ports;
 };
 // ------------------------------------------------------------------ application 2: presets, enabled-by, sub-trees
@@ -45,6 +45,23 @@ struct Synth {
         int p = preset < 0 ? 0 : preset > 2 ? 2 : preset; gain = g[p]; cutoff = c[p]; memcpy(env, e[p], sizeof env); }
     static const rtosc::Ports ports;
 };
+
+
+// ------------------------------------------------------------------ application 3: a zoo of dependencies under an enumerated sub-tree
+// Every provider's callback resets its dependants to their defaults, so that applying a provider after a dependant is observable.
+struct Unit {
+    int bank, kind, gain, width, mix; bool enabled; int unison, type, detune; int lfo_shape, lfo_rate, lfo_depth;
+    static int kind_default(int bank) { static const int t[3] = {1, 2, 3}; return t[bank < 0 ? 0 : bank > 2 ? 2 : bank]; }
+    static int mix_default(int kind) { static const int t[4] = {10, 20, 30, 40}; return t[kind < 0 ? 0 : kind > 3 ? 3 : kind]; }
+    static int detune_default(int type) { static const int t[3] = {0, 7, 12}; return t[type < 0 ? 0 : type > 2 ? 2 : type]; }
+    void reset_lfo() { lfo_rate = 5; lfo_depth = 6; }
+    void set_bank(int v) { bank = v < 0 ? 0 : v > 2 ? 2 : v; set_kind(kind_default(bank)); lfo_shape = 0; reset_lfo(); }
+    void set_kind(int v) { kind = v < 0 ? 0 : v > 3 ? 3 : v; mix = mix_default(kind); }
+    void set_enabled(bool e) { enabled = e; unison = 1; detune = detune_default(type); }
+    Unit() : bank(0), gain(50), width(50), enabled(false), unison(1), type(0), lfo_shape(0) { set_bank(0); detune = detune_default(0); }
+    static const rtosc::Ports ports;
+};
+struct Deps { Unit units[2]; int master; Deps() : master(100) {} static const rtosc::Ports ports; };
 
 #define rObject Osc
 inline const rtosc::Ports Osc::ports = {
@@ -76,6 +93,9 @@ inline const rtosc::Ports Flat::ports = {
     rArrayF(farr, 3, rLinear(-1, 1), rDefault([3x0.0]), "float array"),
     rArrayT(tarr, 3, rDefault([false false false]), "toggle array"),
     rParam(pc, rDefault('@'), "char parameter"),
+    {"slot#3/level::i", rProp(parameter) rMap(min, 0) rMap(max, 100) rDefault([3x0]) rDoc("enumeration in the middle of a leaf name"), NULL,
+        [](const char *m, rtosc::RtData &d) { Flat *o = (Flat *)d.obj; const char *mm = m; while (*mm && !isdigit(*mm)) ++mm; unsigned idx = atoi(mm); if (idx >= 3) return;
+            if (*rtosc_argument_string(m)) { int v = rtosc_argument(m, 0).i; o->slot_level[idx] = v < 0 ? 0 : v > 100 ? 100 : v; d.broadcast(d.loc, "i", o->slot_level[idx]); } else d.reply(d.loc, "i", o->slot_level[idx]); }},
 };
 #undef rObject
 #define rObject Synth
@@ -95,6 +115,34 @@ inline const rtosc::Ports Synth::ports = {
     {"mode::i", rProp(parameter) rMap(min, 0) rMap(max, 3) rDefault(0) rDoc("mode: changing it resets depth"), NULL,
         [](const char *m, rtosc::RtData &d) { Synth *o = (Synth *)d.obj; if (*rtosc_argument_string(m)) { int v = rtosc_argument(m, 0).i; if (v < 0) v = 0; if (v > 3) v = 3; if (v != o->mode) { o->mode = v; o->depth = 7; } d.broadcast(d.loc, "i", o->mode); } else d.reply(d.loc, "i", o->mode); }},
     rParamI(depth, rLinear(0, 20), rDepends(mode), rDefault(7), "depth (reset by mode)"),
+};
+#undef rObject
+
+
+#define UCB(body) [](const char *m, rtosc::RtData &d) { Unit *o = (Unit *)d.obj; bool set = *rtosc_argument_string(m) != 0; int v = set ? rtosc_argument(m, 0).i : 0; (void)v; body }
+#define UINT(field, onset) UCB(if (set) { onset; d.broadcast(d.loc, "i", o->field); } else d.reply(d.loc, "i", o->field);)
+inline const rtosc::Ports Unit::ports = {
+    // dependants are declared (and therefore saved) BEFORE the ports they depend on: loading must reorder
+    {"mix::i", rProp(parameter) rMap(min, 0) rMap(max, 100) rDepends(gain, width) rDefaultDepends(kind) rPresets(10, 20, 30, 40) rDoc("mix: declared dependencies and a preset dependent default"), NULL, UINT(mix, o->mix = v < 0 ? 0 : v > 100 ? 100 : v)},
+    {"detune::i", rProp(parameter) rMap(min, 0) rMap(max, 24) rDefaultDepends(type) rDepends(type, unison) rPresets(0, 7, 12) rDoc("detune: reaches 'type' twice and depends on unison"), NULL, UINT(detune, o->detune = v < 0 ? 0 : v > 24 ? 24 : v)},
+    {"lfo_rate::i", rProp(parameter) rMap(min, 0) rMap(max, 20) rDepends(lfo_shape) rDefault(5) rDoc("lfo rate"), NULL, UINT(lfo_rate, o->lfo_rate = v < 0 ? 0 : v > 20 ? 20 : v)},
+    {"lfo_depth::i", rProp(parameter) rMap(min, 0) rMap(max, 20) rDepends(lfo_shape) rDefault(6) rDoc("lfo depth"), NULL, UINT(lfo_depth, o->lfo_depth = v < 0 ? 0 : v > 20 ? 20 : v)},
+    {"kind::i", rProp(parameter) rMap(min, 0) rMap(max, 3) rDefaultDepends(bank) rPresets(1, 2, 3) rDoc("kind: default depends on bank; resets mix"), NULL, UINT(kind, o->set_kind(v))},
+    {"lfo_shape::i", rProp(parameter) rMap(min, 0) rMap(max, 3) rDepends(bank) rDefault(0) rDoc("lfo shape: depends on bank; resets rate and depth"), NULL, UINT(lfo_shape, o->lfo_shape = v < 0 ? 0 : v > 3 ? 3 : v; o->reset_lfo())},
+    {"unison::i", rProp(parameter) rMap(min, 1) rMap(max, 8) rEnabledBy(enabled) rDefault(1) rDoc("unison: enabled by a toggle; resets detune"), NULL, UINT(unison, o->unison = v < 1 ? 1 : v > 8 ? 8 : v; o->detune = Unit::detune_default(o->type))},
+    {"gain::i", rProp(parameter) rMap(min, 0) rMap(max, 100) rDefault(50) rDoc("gain: resets mix"), NULL, UINT(gain, o->gain = v < 0 ? 0 : v > 100 ? 100 : v; o->mix = Unit::mix_default(o->kind))},
+    {"width::i", rProp(parameter) rMap(min, 0) rMap(max, 100) rDefault(50) rDoc("width: resets mix"), NULL, UINT(width, o->width = v < 0 ? 0 : v > 100 ? 100 : v; o->mix = Unit::mix_default(o->kind))},
+    {"type::i", rProp(parameter) rMap(min, 0) rMap(max, 2) rDefault(0) rDoc("type: resets detune"), NULL, UINT(type, o->type = v < 0 ? 0 : v > 2 ? 2 : v; o->detune = Unit::detune_default(o->type))},
+    {"enabled::T:F", rProp(parameter) rDefault(false) rDoc("enables unison; resets unison and detune"), NULL,
+        [](const char *m, rtosc::RtData &d) { Unit *o = (Unit *)d.obj; const char *a = rtosc_argument_string(m); if (*a) { o->set_enabled(*a == 'T'); d.broadcast(d.loc, o->enabled ? "T" : "F"); } else d.reply(d.loc, o->enabled ? "T" : "F"); }},
+    {"bank::i", rProp(parameter) rMap(min, 0) rMap(max, 2) rDefault(0) rDoc("bank: resets kind, mix and the lfo"), NULL, UINT(bank, o->set_bank(v))},
+};
+#undef UINT
+#undef UCB
+#define rObject Deps
+inline const rtosc::Ports Deps::ports = {
+    rRecurs(units, 2, "units"),
+    rParamI(master, rLinear(0, 200), rDefault(100), "master"),
 };
 #undef rObject
 
@@ -131,6 +179,7 @@ inline const std::vector<Param> &flat_params() {
     P.push_back({"/farr", 3, 'f', [](void *o, int k) { return vf(F(o)->farr[k]); }, [](void *, int) { return vf(0.0f); }, yes, -1, 1, 0, {}});
     P.push_back({"/tarr", 3, 'T', [](void *o, int k) { return vb(F(o)->tarr[k]); }, [](void *, int) { return vb(false); }, yes, 0, 1, 0, {}});
     P.push_back({"/pc", 1, 'c', [](void *o, int) { return vi(F(o)->pc); }, [](void *, int) { return vi('@'); }, yes, 0, 127, 0, {}});
+    for (int q = 0; q < 3; q++) P.push_back({"/slot" + std::to_string(q) + "/level", 1, 'i', [q](void *o, int) { return vi(F(o)->slot_level[q]); }, [](void *, int) { return vi(0); }, yes, 0, 100, 0, {}});
 #undef F
     return P;
 }
@@ -157,11 +206,35 @@ inline const std::vector<Param> &synth_params() {
     return P;
 }
 
+
+inline const std::vector<Param> &deps_params() {
+    static std::vector<Param> P; if (!P.empty()) return P; auto yes = [](void *) { return true; };
+#define U(o) (&((Deps *)o)->units[u])
+    for (int u = 0; u < 2; u++) { std::string pre = "/units" + std::to_string(u) + "/";
+        auto ip = [&](const char *n, std::function<int(Unit *)> g, std::function<int(Unit *)> df, double lo, double hi) { P.push_back({pre + n, 1, 'i', [u, g](void *o, int) { return vi(g(U(o))); }, [u, df](void *o, int) { return vi(df(U(o))); }, yes, lo, hi, 0, {}}); };
+        ip("bank", [](Unit *x) { return x->bank; }, [](Unit *) { return 0; }, 0, 2);
+        ip("kind", [](Unit *x) { return x->kind; }, [](Unit *x) { return Unit::kind_default(x->bank); }, 0, 3);
+        ip("gain", [](Unit *x) { return x->gain; }, [](Unit *) { return 50; }, 0, 100);
+        ip("width", [](Unit *x) { return x->width; }, [](Unit *) { return 50; }, 0, 100);
+        ip("mix", [](Unit *x) { return x->mix; }, [](Unit *x) { return Unit::mix_default(x->kind); }, 0, 100);
+        P.push_back({pre + "enabled", 1, 'T', [u](void *o, int) { return vb(U(o)->enabled); }, [](void *, int) { return vb(false); }, yes, 0, 1, 0, {}});
+        ip("unison", [](Unit *x) { return x->unison; }, [](Unit *) { return 1; }, 1, 8);
+        ip("type", [](Unit *x) { return x->type; }, [](Unit *) { return 0; }, 0, 2);
+        ip("detune", [](Unit *x) { return x->detune; }, [](Unit *x) { return Unit::detune_default(x->type); }, 0, 24);
+        ip("lfo_shape", [](Unit *x) { return x->lfo_shape; }, [](Unit *) { return 0; }, 0, 3);
+        ip("lfo_rate", [](Unit *x) { return x->lfo_rate; }, [](Unit *) { return 5; }, 0, 20);
+        ip("lfo_depth", [](Unit *x) { return x->lfo_depth; }, [](Unit *) { return 6; }, 0, 20); }
+    P.push_back({"/master", 1, 'i', [](void *o, int) { return vi(((Deps *)o)->master); }, [](void *, int) { return vi(100); }, yes, 0, 200, 0, {}});
+#undef U
+    return P;
+}
+
 struct AppDesc { const char *name; const rtosc::Ports *ports; const std::vector<Param> *params; std::function<void *()> make; std::function<void(void *)> destroy; };
 inline const AppDesc &app_desc(int which) {
-    static AppDesc d[2] = { {"flatapp", &Flat::ports, &flat_params(), [] { return (void *)new Flat; }, [](void *p) { delete (Flat *)p; }},
-                            {"synthapp", &Synth::ports, &synth_params(), [] { return (void *)new Synth; }, [](void *p) { delete (Synth *)p; }} };
-    return d[which & 1];
+    static AppDesc d[3] = { {"flatapp", &Flat::ports, &flat_params(), [] { return (void *)new Flat; }, [](void *p) { delete (Flat *)p; }},
+                            {"synthapp", &Synth::ports, &synth_params(), [] { return (void *)new Synth; }, [](void *p) { delete (Synth *)p; }},
+                            {"depsapp", &Deps::ports, &deps_params(), [] { return (void *)new Deps; }, [](void *p) { delete (Deps *)p; }} };
+    return d[((which % 3) + 3) % 3];
 }
 
 } // namespace sapp
